@@ -8,7 +8,7 @@ from . import packer  # noqa
 R.model("Avp", fields={"code": "int", "flags": "int", "payload": "bytes", "name": "str",
                        "_vendor_id": "int"},
         dynamic={"_avps": "List[Avp]"})
-R.model("AvpInfo", builtin=True, fields={"name": "str", "type": "Any", "mandatory": "Opt[bool]",
+R.model("AvpInfo", builtin=True, fields={"name": "str", "type": "Any:avpclass", "mandatory": "Opt[bool]",
                                          "vendor": "int"})
 R.exception("AvpDecodeError", "Exception")
 R.exception("AvpEncodeError", "Exception")
@@ -100,12 +100,18 @@ def _call_opaque(ex, st, f, args, kwargs, k, where):
     """Calling a dictionary `type` token: instantiates that Avp subclass; all of them inherit
     Avp.__init__ (structural obligation C01.struct.init-not-overridden)."""
     from pyvc.smt import store
+    if getattr(f, "tag", None) != "avpclass":
+        hk = R.specfns.get("call_opaque_" + str(getattr(f, "tag", None)))
+        if hk is None:
+            raise Unsupported(f"call of opaque value with tag {getattr(f, 'tag', None)} at {where}")
+        return hk(ex, st, f, args, kwargs, k, where)
     s2, r = ex.alloc_ref(st)
     a = ex.heap_array(s2, "$type", INT, INT)
     s2.heap["$type"] = store(a, r, f.t)
     obj = VRef(r, "Avp")
     c = ex.contract_of("Avp.__init__")
-    return ex.apply_contract(s2, c, [obj] + list(args), kwargs, lambda s3, _r: k(s3, obj), where)
+    fi = ex.prog.func("Avp.__init__")
+    return ex.apply_contract(s2, c, [obj] + list(args), kwargs, lambda s3, _r: k(s3, obj), where, fi=fi)
 
 
 # decoding one AVP at position p of buf (spec of from_unpacker)
@@ -141,3 +147,35 @@ R.contract("Avp.from_unpacker", params={"unpacker": "Unpacker"}, returns="Avp",
                          "upos(unpacker) + 8 > len(ubuf(unpacker)) or "
                          "upos(unpacker) + d_hdr(ubuf(unpacker), upos(unpacker)) > len(ubuf(unpacker))", "iff")],
            modifies=["unpacker._Unpacker__pos"], allocates=True, props=["C01", "C04"])
+
+R.contract("Avp.from_bytes", params={"avp_data": "bytes"}, returns="Avp",
+           ensures=[("code", "result.code == d_code(avp_data, 0)"),
+                    ("vendor", "result._vendor_id == d_vendor(avp_data, 0)"),
+                    ("flags", "result.flags == d_flags(avp_data, 0) - 128 * bit7(d_flags(avp_data, 0)) "
+                              "+ ite(result._vendor_id != 0, 128, 0)"),
+                    ("payload", "result.payload == d_payload(avp_data, 0)")],
+           raises=[Raise("AvpDecodeError",
+                         "d_end(avp_data, 0) > len(avp_data) or 8 > len(avp_data) or d_hdr(avp_data, 0) > len(avp_data)",
+                         "iff")],
+           allocates=True, props=["C01", "C04"])
+
+R.contract("Avp._flags", params={"self": "Avp"}, returns="List[str]", props=["C04"],
+           note="raises nothing")
+R.contract("Avp.__str__", params={"self": "Avp"}, returns="str", modifies=["self._avps"], props=["C04"],
+           requires=["len(self.payload) >= 0"],
+           note="rendering any AVP never raises (the value getter may only raise AvpDecodeError, which is caught)")
+
+# Avp.new without a value: flags as requested, dictionary default for M
+R.macro("new_m", ["e", "m"], "ite(is_none(m), ite(is_none(e.mandatory), False, some(e.mandatory)), some(m))")
+R.contract("Avp.new#novalue",
+           params={"avp_code": "int", "vendor_id": "int", "value": "None", "is_mandatory": "Opt[bool]",
+                   "is_private": "Opt[bool]"},
+           returns="Avp",
+           ensures=[("fields", "result.code == avp_code and result._vendor_id == vendor_id and result.payload == b'' "
+                               "and result.name == dict_entry(avp_code, vendor_id).name"),
+                    ("flags", "result.flags == ite(vendor_id != 0, 128, 0) "
+                              "+ ite(new_m(dict_entry(avp_code, vendor_id), is_mandatory), 64, 0) "
+                              "+ ite(is_none(is_private), 0, ite(some(is_private), 32, 0))"),
+                    ("type", "avp_class_ok(dict_entry(avp_code, vendor_id).type)")],
+           raises=[Raise("ValueError", "not dict_known(avp_code, vendor_id)", "iff")],
+           allocates=True, props=["C01"])
